@@ -89,16 +89,20 @@ pub fn run(ctx: &Ctx, ev: &mut Ev) {
             for cp in [0x10000u32, 0x1F4A9, 0x2008A, 0x10FFFF, 0x20000] { c.check(ev, enc, &[cp, cp], true, false); }
         }
     }
-    // (c) all ordered pairs and triples over the class-representative scalar alphabet
+    // (c) all ordered pairs (and triples) over the per-encoder class-representative alphabet: specials + a mappable
+    // and an unmappable scalar of every script arm the encoder distinguishes (state transitions, escapes, NCR after escape)
     if ctx.want("pairs") && !tiny {
-        let alpha: Vec<u32> = if th { SCALARS_WIDE.to_vec() } else { SCALARS.to_vec() };
         for &enc in ALL.iter() {
             let full = encoder_families().contains(&enc);
+            if !full && !th && enc.output_encoding() == UTF_8 { continue; }
+            let alpha = encoder_alpha(enc);
+            let small = encoder_alpha_small(enc, &SCALARS_SMALL);
             for a in alpha.iter() {
                 if !ev.mine() { continue; }
                 for b in alpha.iter() {
+                    if !full && !th && (a + b) % 3 != 0 { continue; }
                     c.check(ev, enc, &[*a, *b], true, false);
-                    if full { for d in SCALARS.iter() { c.check(ev, enc, &[*a, *b, *d], true, false); } }
+                    if full { for d in small.iter() { if !th && (a + b + d) % 2 != 0 { continue; } c.check(ev, enc, &[*a, *b, *d], true, false); } }
                 }
             }
         }
